@@ -1,7 +1,8 @@
 (* Glue between the token wire format and the C18 model/spec.  Extracted.
    Cases:   BOOL v | UINT v stale | DUR v | FLT v stale | STR v | DIS v | DET ra sn
             RES ra sn ; op ; op ...        op = N schema (k ty v)* | M i j | C schema (k ty v)*
-            PROV ; N schema (k ty v)* ; ... ; E (s|l|m) i ; ...
+            PROV ; N schema (k ty v)* ; ... ; op ; ...   op = E (s|l|m) i | G i | I i | A i | K i | D i
+              (E m i = A i then K i; G GetMeter, I create the counter, A Add(1), K / D collect on the cumulative / delta reader)
    v, ra, sn: NONE (unset) or x<bytes> without NUL;  ty v = s x<bytes> | i <int64> | b <0|1>. *)
 From V Require Export C18.Spec.
 Local Open Scope Z_scope.
@@ -17,7 +18,7 @@ Inductive case :=
 | CDis (v : envv)
 | CDet (ra sn : envv)
 | CRes (ra sn : envv) (ops : list rop)
-| CProv (rs : list (list (bytes * value) * bytes)) (ops : list (signal * nat)).
+| CProv (rs : list (list (bytes * value) * bytes)) (ops : list pop).
 
 Definition parse_env (t : tok) : option envv :=
   match t with
@@ -73,7 +74,25 @@ Fixpoint all_some {A} (l : list (option A)) : option (list A) :=
 Definition parse_signal (t : tok) : option signal :=
   if is_tag "s" t then Some SigSpan else if is_tag "l" t then Some SigLog else if is_tag "m" t then Some SigMetric else None.
 
-(* providers first (N ...), then emissions (E sig i) *)
+Definition parse_pop (op : list tok) : option (list pop) :=
+  match op with
+  | [t; sg; i] => if is_tag "E" t then
+                    match parse_signal sg, parse_nat i with
+                    | Some SigMetric, Some n => Some [PA n; PK false n]
+                    | Some s, Some n => Some [PE s n]
+                    | _, _ => None
+                    end
+                  else None
+  | [t; i] => match parse_nat i with
+              | Some n => if is_tag "G" t then Some [PG n] else if is_tag "I" t then Some [PI n]
+                          else if is_tag "A" t then Some [PA n] else if is_tag "K" t then Some [PK false n]
+                          else if is_tag "D" t then Some [PK true n] else None
+              | None => None
+              end
+  | _ => None
+  end.
+
+(* providers first (N ...), then the operations *)
 Fixpoint parse_prov (l : list (list tok)) (rs : list (list (bytes * value) * bytes)) : option case :=
   match l with
   | (t :: TB schema :: rest) :: l' =>
@@ -83,17 +102,7 @@ Fixpoint parse_prov (l : list (list tok)) (rs : list (list (bytes * value) * byt
         | None => None
         end
       else None
-  | _ =>
-      option_map (CProv rs)
-        (all_some (map (fun op => match op with
-                                  | [t; sg; i] => if is_tag "E" t then
-                                                    match parse_signal sg, parse_nat i with
-                                                    | Some s, Some n => Some (s, n)
-                                                    | _, _ => None
-                                                    end
-                                                  else None
-                                  | _ => None
-                                  end) l))
+  | _ => option_map (fun o => CProv rs (concat o)) (all_some (map parse_pop l))
   end.
 
 Definition parse_case (l : list tok) : option case :=
@@ -177,11 +186,13 @@ Definition run_model (l : list tok) : list tok :=
   | Some (CProv rs ops) =>
       match run_emits (resources_of rs) ops with
       | [] => [tag "EMPTY"]
-      | items => join_toks ";" (map (fun it => match it with
-                                               | Some p => match p_ref p with
-                                                           | Some i => tnat i :: print_res (p_res p)
-                                                           | None => [TZ (-1)]
-                                                           end
+      | items => join_toks ";" (map (fun it : option (pitem * bool) => match it with
+                                               | Some (p, has_data) =>
+                                                   (if has_data then tag "d" else tag "e") ::
+                                                   match p_ref p with
+                                                   | Some i => tnat i :: print_res (p_res p)
+                                                   | None => [TZ (-1)]
+                                                   end
                                                | None => [tag "NOPROVIDER"]
                                                end) items)
       end
@@ -258,7 +269,10 @@ Definition run_tag (l : list tok) : list tok :=
                                | None, None => "det_none" | Some _, None => "det_attrs" | None, Some _ => "det_name" | Some _, Some _ => "det_both"
                                end)]
   | Some (CRes ra sn ops) => [tag (tag_res ra sn ops)]
-  | Some (CProv _ _) => [tag "prov"]
+  | Some (CProv rs ops) =>
+      [tag (if existsb (fun it => match it with Some (_, false) => true | _ => false end) (run_emits (resources_of rs) ops)
+            then "prov_batch_without_data"
+            else if existsb (fun op => match op with PK _ _ => true | _ => false end) ops then "prov_metrics" else "prov")]
   | None => bad_case
   end.
 
@@ -295,8 +309,14 @@ Definition parse_robs (l : list tok) : option robs :=
   end.
 Definition parse_pobs (l : list tok) : option pobs :=
   match l with
-  | [t] => if is_tag "NOTHING" t then Some None else match t with TZ z => Some (Some (z, None)) | _ => None end
-  | TZ ref :: rest => match parse_robs rest with Some r => Some (Some (ref, r)) | None => None end
+  | [t] => if is_tag "NOTHING" t then Some None else None
+  | f :: rest =>
+      match (if is_tag "d" f then Some true else if is_tag "e" f then Some false else None), rest with
+      | Some has_data, [t] => if is_tag "NULLRES" t then Some (Some (-2, None, has_data))
+                              else match t with TZ z => Some (Some (z, None, has_data)) | _ => None end
+      | Some has_data, TZ ref :: more => match parse_robs more with Some r => Some (Some (ref, r, has_data)) | None => None end
+      | _, _ => None
+      end
   | _ => None
   end.
 
@@ -345,7 +365,7 @@ Definition run_spec (l obs : list tok) : list tok :=
              end
       end
   | Some (CProv rs ops) =>
-      match ops with
+      match flat_map (fun op => match pop_target op with Some x => [x] | None => [] end) ops with
       | [] => []
       | _ => match all_some (map parse_pobs (split_toks ";" obs)) with
              | Some os => clause_emits rs ops os
